@@ -178,6 +178,16 @@ func ExchangeHarness(name string, cfg Cfg, pairs [][2]*frame.Frame, bound int) *
 			}
 			o.Logf("pair %d ok", i)
 		}
+		// a server-pushed event (stream id -1) travels the same connection and must reach the event channel intact
+		ev := frame.NewFrame(cfg.Version, -1, &message.SchemaChangeEvent{ChangeType: primitive.SchemaChangeTypeCreated, Target: primitive.SchemaChangeTargetKeyspace, Keyspace: "ks1"})
+		wantEv := gen.Clone(ev).(*frame.Frame)
+		if err := p.S.Send(ev); err != nil {
+			o.Fail("C15:server-send", "CqlServerConnection.Send", "event: %v", err)
+		} else if got, err := p.C.ReceiveEvent(); err != nil {
+			o.Fail("C15:event-lost", "CqlClientConnection.ReceiveEvent", "the event pushed by the server did not arrive: %v", err)
+		} else if d := gen.Equal(wantEv, got, ignore); d != "" {
+			o.Fail("C15:event-altered", "server->client", "client received a different event: %s", d)
+		}
 		sched.Atomic(func() {
 			checkWire(o, cfg, "client", p.Wire.ClientOut.Bytes(), hsClient)
 			checkWire(o, cfg, "server", p.Wire.ServerOut.Bytes(), hsServer)
